@@ -113,8 +113,6 @@ def _run_shard(shard, shard_seed, tier, outfile, hangfile, excluded):
             chash = case_hash(case)
             if nt:
                 stats["nontrivial"].add(chash)
-                if len(stats["samples"]) < 3 and stats["evaluations"] % 7 in (0, 1):
-                    stats["samples"].append(case)
             if shard.classify is not None:
                 for label in shard.classify(case):
                     stats["labels"][label] += 1
@@ -129,10 +127,16 @@ def _run_shard(shard, shard_seed, tier, outfile, hangfile, excluded):
                 stats["evaluations"] += int(ret.get("evaluations", 1))
                 for key in ret.get("nontrivial", ()):
                     stats["nontrivial"].add(f"{chash}/{key}")
+                if ret.get("nontrivial"):
+                    nt = True
+                    case = dict(case, _expanded_runs=list(ret["nontrivial"])[:6])
                 for label, cnt in (ret.get("labels") or {}).items():
                     stats["labels"][label] += cnt
             else:
                 stats["evaluations"] += 1
+            stats["seen"] = stats.get("seen", 0) + 1
+            if nt and len(stats["samples"]) < 3 and (stats["seen"] % 5 == 1 or not stats["samples"]):
+                stats["samples"].append(case)
         finally:
             watch.disarm()
 
